@@ -5,6 +5,7 @@ import (
 	"encoding/hex"
 	"encoding/json"
 	"fmt"
+	"math"
 	"os"
 	"reflect"
 	"sort"
@@ -518,7 +519,10 @@ func checkC09(uc *UnionCase) *Outcome {
 			return o.failf("helper nodes differ: parts give %+v, union gives %+v", a, b)
 		}
 	}
-	if whole.Pos != PosBK {
+	// side by side: stated for size-aware positioners; the NetworkSimplex positioner is size-aware on its integer grid
+	// only (C04's quantifier) - with fractional widths it rounds centre distances and a layer's last node need not be
+	// its rightmost extent. (A first version asserted this for fractional sizes too: false alarm at VERIF_SEED=2, corrected.)
+	if whole.Pos != PosBK && !(whole.Pos == PosNS && !integerGeometry(whole)) {
 		ns := whole.NodeSpacing()
 		for p := range exts {
 			for q := p + 1; q < len(exts); q++ {
@@ -535,3 +539,16 @@ func checkC09(uc *UnionCase) *Outcome {
 }
 
 func TestC09(t *testing.T) { runGenerated(t, propC09) }
+
+// integerGeometry: all configured widths and the NodeSpacing are integers (the NetworkSimplex positioner's domain)
+func integerGeometry(c *Case) bool {
+	if c.NodeSpacing() != math.Trunc(c.NodeSpacing()) {
+		return false
+	}
+	for _, id := range NodeIDs(c.Edges) {
+		if w := c.ConfiguredSize(id).W; w != math.Trunc(w) {
+			return false
+		}
+	}
+	return true
+}
